@@ -435,8 +435,10 @@ def gen_pipeline(rng, tname):
     return fs, ed
 
 
-def construct(fs, validate):
-    """Build fresh PipeFuncs + the Pipeline; -> ('ok', None) | ('TypeError', e) | ('other', e)."""
+def construct(fs, validate, order="listed"):
+    """Build fresh PipeFuncs + the Pipeline; -> ('ok', None) | ('TypeError', e) | ('other', e).
+    order: 'listed' (producers first), 'reversed' (consumers first), 'add' (start from the last function and
+    add the others one by one, producers last)."""
     P = _pf()  # noqa: N806
     try:
         with quiet():
@@ -446,7 +448,14 @@ def construct(fs, validate):
                 fn = mkfunc(f["name"], f["params"], ann, len(f["outs"]))
                 on = f["outs"][0] if len(f["outs"]) == 1 else tuple(f["outs"])
                 pfs.append(P["PipeFunc"](fn, output_name=on, mapspec=f["mapspec"], renames=dict(f["renames"])))
-            P["Pipeline"](pfs, validate_type_annotations=validate)
+            if order == "reversed":
+                pfs = pfs[::-1]
+            if order == "add":
+                pl = P["Pipeline"](pfs[-1:], validate_type_annotations=validate)
+                for f_ in pfs[-2::-1]:
+                    pl.add(f_)
+            else:
+                P["Pipeline"](pfs, validate_type_annotations=validate)
         return "ok", None
     except TypeError as e:
         return "TypeError", e
@@ -518,6 +527,19 @@ def check_pipeline(v, rng, tname):
     if out != "ok":
         v.bad(f"pipe:rejected-with-validation-off/{exc_sig(e, 'exc')}",
               f"Pipeline(..., validate_type_annotations=False) raised {exc_msg(e)}", **desc)
+    # the verdict must not depend on the order in which the functions are listed / added
+    for order in ("reversed", "add"):
+        if len(fs) < 2:
+            break
+        o2, e2 = construct(fs, True, order)
+        v.count("constructions")
+        v.count(f"constructions_order_{order}")
+        if okc == len(ed) and o2 != "ok":
+            v.bad(f"pipe:rejected-compatible/order={order}", f"every edge is compatible but construction in order '{order}' raised {exc_msg(e2, 200)}", **desc)
+        elif firm and o2 == "ok":
+            v.bad(f"pipe:accepted-incompatible/order={order}",
+                  f"an incompatible edge between explicitly annotated functions is accepted when the functions are given in order '{order}'",
+                  incompatible=[f"{x['kind']}: {show(x['source'])} => {show(x['target'])}" for x in firm], **desc)
     out, e = construct(fs, True)
     v.count("constructions")
     v.count(f"outcome_{out}")
